@@ -402,6 +402,34 @@ func rtMemoReplay(a *aggregator, v *rtView, f *ssa.Function) {
 		}
 	}
 	walk(matchedEntry)
+	// the three effects must happen on EVERY matched path: their blocks dominate each return
+	// that yields true (a conditional splice, e.g. "skip when the tokens are probably still
+	// there", is not a replay of what re-running the rule would record)
+	var effBlocks []*ssa.BasicBlock
+	instrsOf(f, func(in ssa.Instruction) {
+		st, ok := in.(*ssa.Store)
+		if !ok {
+			return
+		}
+		n, whole := v.varOf(st.Addr)
+		if (n == "tree" && !whole) || (n == "tokenIndex" && whole) || (n == "position" && whole) {
+			effBlocks = append(effBlocks, st.Block())
+		}
+	})
+	instrsOf(f, func(in ssa.Instruction) {
+		ret, ok := in.(*ssa.Return)
+		if !ok {
+			return
+		}
+		if k, ok := ret.Results[0].(*ssa.Const); ok && k.Value.String() == "false" {
+			return
+		}
+		for _, b := range effBlocks {
+			if !b.Dominates(ret.Block()) {
+				bad = append(bad, "the splice / tokenIndex / position update is skipped on some path of a memoised success (it does not dominate the return)")
+			}
+		}
+	})
 	if !sawTrunc {
 		bad = append(bad, "the matched path never splices m.Partial into the token buffer")
 	}
